@@ -313,9 +313,10 @@ class AttributeAssignment:
         :return: True if a type filter condition is needed for the attribute assignment, else False.
         """
         attr_type = self.attr._type_
-        return (not attr_type) or (
-            (self.assigned_value.type_ and self.assigned_value.type_ is not attr_type)
-            and issubclass(self.assigned_value.type_, attr_type)
+        # no filter only where the declared type of the attribute already guarantees the matched type
+        return (not attr_type) or bool(
+            self.assigned_value.type_
+            and not issubclass(attr_type, self.assigned_value.type_)
         )
 
 
